@@ -43,6 +43,8 @@ pub enum VRes {
     Keys(Vec<Tuple>),
     /// model only: the operation cannot take effect here (a map mutation inside an open collection)
     Blocked,
+    /// executor only: the untouched background children of a large vector are not shown exactly once with value 0
+    BadBackground(String),
 }
 
 #[derive(Clone, PartialEq, Eq, Hash, Default)]
@@ -140,7 +142,12 @@ struct Sys {
     v: AnyVec,
     names: Vec<&'static str>,
     handles: Arc<Mutex<HashMap<usize, AnyChild>>>,
+    /// large-vector programs: this many background children exist before the threads start and are never touched;
+    /// every collection must show each of them exactly once with value 0 (checked directly, outside the search)
+    bulk: usize,
 }
+
+const BG: &str = "\u{1}bg";
 
 impl Sys {
     fn get(&self, t: &Tuple, map: bool) -> Result<AnyChild, prometheus::Error> {
@@ -225,9 +232,31 @@ impl Sys {
                     AnyVec::G(v) => v.collect(),
                 };
                 let f = neutral(&fams[0]);
+                let mut bg_seen: Vec<&str> = vec![];
+                for s in &f.samples {
+                    if let Some((_, v)) = s.labels.iter().find(|(k, v)| k == self.names[0] && v.starts_with(BG)) {
+                        let zero = matches!(s.value, NValue::Counter(x) | NValue::Gauge(x) if x == 0.0);
+                        if !zero {
+                            return VRes::BadBackground(format!("background child {:?} shows a non-zero value", v));
+                        }
+                        bg_seen.push(v.as_str());
+                    }
+                }
+                if self.bulk > 0 || !bg_seen.is_empty() {
+                    let n = bg_seen.len();
+                    bg_seen.sort();
+                    bg_seen.dedup();
+                    if n != bg_seen.len() {
+                        return VRes::BadBackground(format!("{} background children are shown, {} distinct: some child appears twice in one collection", n, bg_seen.len()));
+                    }
+                    if n != self.bulk {
+                        return VRes::BadBackground(format!("{} of the {} background children (present before, during and after the collection) are shown", n, self.bulk));
+                    }
+                }
                 let mut out: Vec<(Tuple, u64)> = f
                     .samples
                     .iter()
+                    .filter(|s| !s.labels.iter().any(|(k, v)| k == self.names[0] && v.starts_with(BG)))
                     .map(|s| {
                         let t: Tuple = self.names.iter().map(|n| s.labels.iter().find(|(k, _)| k == n).map(|x| x.1.clone()).unwrap_or_default()).collect();
                         let v = match s.value {
@@ -264,7 +293,9 @@ impl Property for C10 {
         "case = one IntCounterVec / CounterVec / GaugeVec with 1-2 label names and 2-3 overlapping (boundary-shifted) tuples; either \
          2-3 threads x 2-5 operations under a generated schedule (walk / PCT / window), or one thread with up to 40 operations \
          (sequential history). Operations: get-or-create (slice or map form) binding a handle, inc_by(2^i) / get through a handle, \
-         remove (slice or map form), reset, collect, a wrong-arity request. Oracle: exhaustive linearizability search against the map \
+         remove (slice or map form), reset, collect, a wrong-arity request; 1.5% of the concurrent programs run on a vector that \
+         already holds 1000-1299 untouched background children (each collection must show every one of them exactly once with value \
+         0). Oracle: exhaustive linearizability search against the map \
          model of DESIGN.md appendix C (tuple -> child, child -> value, handle -> child; handles of removed children stay usable; \
          re-created children start from zero; collect shows every tuple once; a concurrent collect is judged as one atomic read of \
          the key set followed by one read per listed child, and no create / remove / reset may take effect between the key read and \
@@ -285,7 +316,8 @@ impl Property for C10 {
     }
 
     fn post(&self, tier: Tier, seed: u64, stats: &mut crate::engine::Stats) -> Result<(), (String, String, Vec<u8>)> {
-        crate::exhaust::bounded_enumeration(self, tier, seed, stats)
+        crate::exhaust::bounded_enumeration(self, tier, seed, stats)?;
+        crate::freerun::free_runs(self, tier, seed, stats)
     }
 
     fn run(&self, src: &mut Src, rep: &mut Report) -> Verdict {
@@ -300,8 +332,18 @@ impl Property for C10 {
             5 => AnyVec::C(CounterVec::new(Opts::new("v", "h"), &names).unwrap()),
             _ => AnyVec::G(GaugeVec::new(Opts::new("v", "h"), &names).unwrap()),
         };
-        let sys = Sys { v, names: names.clone(), handles: Arc::new(Mutex::new(HashMap::new())) };
         let sequential = src.chance(64);
+        // 1.5% of concurrent programs run on a large vector (the library imposes no limit on the number of children)
+        let bulk = if !sequential && src.chance(4) { 1000 + src.below(300) } else { 0 };
+        let sys = Sys { v, names: names.clone(), handles: Arc::new(Mutex::new(HashMap::new())), bulk };
+        for k in 0..bulk {
+            let mut t: Tuple = vec![format!("{}{}", BG, k)];
+            t.resize(names.len(), String::new());
+            sys.get(&t, false).expect("background child");
+        }
+        if bulk > 0 {
+            rep.class("large-vector(1000+ untouched background children)");
+        }
         let nthreads = if sequential { 1 } else { 2 + src.below(2) };
         let mut prog: Vec<Vec<VOp>> = vec![];
         let mut next_hid = 0usize;
@@ -325,7 +367,8 @@ impl Property for C10 {
                     }
                     9 | 10 if !my_handles.is_empty() => VOp::Get { hid: my_handles[my_handles.len() - 1 - src.below(my_handles.len())] },
                     11 | 12 => VOp::Remove { t, map: src.chance(80) },
-                    13 => VOp::Reset,
+                    13 if bulk == 0 => VOp::Reset,
+                    13 => VOp::Remove { t, map: false },
                     14 => VOp::WrongArity,
                     _ => VOp::Collect,
                 };
@@ -347,7 +390,7 @@ impl Property for C10 {
             })
             .collect();
         let mut chooser = make_chooser(src, nthreads, total * 6 + 4, rep);
-        let exec = run(threads, chooser.as_mut(), 12000);
+        let exec = run(threads, chooser.as_mut(), if bulk > 0 { 60_000 } else { 12_000 });
         drop(chooser);
         match &exec.verdict {
             ExecVerdict::Completed => {}
@@ -360,6 +403,9 @@ impl Property for C10 {
         let mut hist: Vec<HOp<VOp, VRes>> = vec![];
         let mut ncoll = 0usize;
         for o in &exec.ops {
+            if let Some(VRes::BadBackground(m)) = &o.result {
+                return fail("collect-background-children-wrong", format!("{} ;; collect by thread {} at [{},{}] ;; program {:?}", m, o.thread, o.invoke, o.response.unwrap_or(0), prog));
+            }
             let op = prog[o.thread][o.idx].clone();
             let res = o.result.clone().unwrap();
             let (invoke, response) = (o.invoke, o.response.unwrap());
@@ -383,7 +429,11 @@ impl Property for C10 {
         }
         // quiescent final state: a collection and a read through every handle
         let mut last = exec.trace.len() + 1;
-        hist.push(HOp { op: VOp::Collect, res: sys.exec(&VOp::Collect), invoke: last, response: last + 1 });
+        let fin = sys.exec(&VOp::Collect);
+        if let VRes::BadBackground(m) = &fin {
+            return fail("collect-background-children-wrong", format!("{} ;; quiescent collect after all threads finished ;; program {:?}", m, prog));
+        }
+        hist.push(HOp { op: VOp::Collect, res: fin, invoke: last, response: last + 1 });
         for hid in 0..next_hid {
             last += 2;
             hist.push(HOp { op: VOp::Get { hid }, res: sys.exec(&VOp::Get { hid }), invoke: last, response: last + 1 });
